@@ -6,8 +6,9 @@
 (* Universe.  Terms 1..4 = T1, T1' (T1's name, another label), T1'' (T1's  *)
 (* label, another name), T2, without URI; terms 5..7 with a URI (equal URI *)
 (* and different name; equal name and different URI);                      *)
-(* values 1..5 = "a", "b", "c", "a ", " a"; universe tags 1..21 =          *)
-(* UTag[u] = <<term, value>>.  Two tags are equal iff they are the same    *)
+(* values 1..5 = "a", "b", "c", "a ", " a"; universe tags 1..26 =          *)
+(* UTag[u] = <<term, value>>.  Two tags are equal iff TEq: same value on   *)
+(* equal terms (TermRep) -- for all but tags 22..24 that means the same    *)
 (* universe tag (the binder builds them from this table, always as fresh   *)
 (* objects).  Python indices are 0-based: vocabulary position k <-> k - 1. *)
 (*                                                                         *)
@@ -36,18 +37,25 @@ EXTENDS Lattice
 \* they count in equality): three different terms
 \* term 10 has EVERY optional Term field set, among them the two ALIASED ones away from their defaults (type_of_term,
 \* written "type", = "class"; term_range, written "range"); term 11 is term 10 with the default type_of_term
-TermName  == <<"n1", "n1", "n2", "n3", "n4", "n5", "n4", "n1", "n1", "n6", "n6">>
-TermLabel == <<"l1", "l2", "l1", "l3", "l4", "l4", "l4", "l1", "l1", "l6", "l6">>
-TermUri   == <<"", "", "", "", "u1", "u1", "u2", "", "", "u6", "u6">>
-Declared  == <<1, 2, 3, 4, 5, 6, 7, 1, 1, 10, 11>>  \* the term one gets by looking at the declared fields only
+\* terms 12..16 are T1 plus an extra attribute whose VALUE is loosely typed: version = 1 / 1.0 / True (one value for
+\* python, so ONE term written three ways), parts = (1, 2) / [1, 2] (a tuple is not a list: two terms, one JSON text)
+TermName  == <<"n1", "n1", "n2", "n3", "n4", "n5", "n4", "n1", "n1", "n6", "n6", "n1", "n1", "n1", "n1", "n1">>
+TermLabel == <<"l1", "l2", "l1", "l3", "l4", "l4", "l4", "l1", "l1", "l6", "l6", "l1", "l1", "l1", "l1", "l1">>
+TermUri   == <<"", "", "", "", "u1", "u1", "u2", "", "", "u6", "u6", "", "", "", "", "">>
+Declared  == <<1, 2, 3, 4, 5, 6, 7, 1, 1, 10, 11, 1, 1, 1, 1, 1>>  \* the term one gets by looking at the declared fields only
+TermRep   == <<1, 2, 3, 4, 5, 6, 7, 8, 9, 10, 11, 12, 12, 12, 15, 16>>   \* equal terms share a representative
+TermJson  == <<1, 2, 3, 4, 5, 6, 7, 8, 9, 10, 11, 12, 13, 14, 15, 15>>   \* terms with the same canonical JSON text
 \* what a dump that leaves out defaults, re-validated by field NAME, makes of a term: the aliased fields do not come back
-Redumped  == <<1, 2, 3, 4, 5, 6, 7, 8, 9, 0, 0>>    \* 0 = a term that is none of the universe (and not the original)
+Redumped  == <<1, 2, 3, 4, 5, 6, 7, 8, 9, 0, 0, 12, 13, 14, 15, 16>>    \* 0 = a term that is none of the universe (and not the original)
 UTag == << <<1, 1>>, <<1, 2>>, <<2, 1>>, <<3, 1>>, <<4, 1>>, <<4, 2>>,
            <<2, 2>>, <<3, 2>>, <<1, 3>>, <<2, 3>>, <<3, 3>>, <<4, 3>>,
            <<5, 1>>, <<6, 1>>, <<7, 1>>,            \* 13..15: tags on the URI-bearing terms
            <<1, 4>>, <<1, 5>>,                      \* 16, 17: T1 with the values "a " and " a" (value 1 = "a")
            <<8, 1>>, <<9, 1>>,                      \* 18, 19: value "a" on the terms with the extra attribute
-           <<10, 1>>, <<11, 1>> >>                  \* 20, 21: value "a" on the fully described terms
+           <<10, 1>>, <<11, 1>>,                    \* 20, 21: value "a" on the fully described terms
+           <<12, 1>>, <<13, 1>>, <<14, 1>>,         \* 22..24: ONE tag written three ways (version 1 / 1.0 / True)
+           <<15, 1>>, <<16, 1>> >>                  \* 25, 26: two tags with one JSON text (parts tuple / list)
+LooseTags == {1, 22, 23, 24, 25, 26}
 UriTags == {1, 13, 14, 15}
 FullTags == {1, 20, 21}                             \* terms with every optional field set (aliased ones included)
 XTags   == {1, 2, 18, 19}                           \* same declared term fields, extra attribute absent / draft / final
@@ -56,17 +64,19 @@ StripVal == <<1, 2, 3, 1, 1>>                       \* what value.strip() would 
 NU == Len(UTag)
 
 (* ------------------------------ Req: encoding ------------------------------ *)
-Injective(v) == \A k, l \in DOMAIN v : v[k] = v[l] => k = l
-Pos(v, u)     == {k \in DOMAIN v : v[k] = u}
+\* equality of universe tags: the same value on equal terms
+TEq(a, b) == TermRep[UTag[a][1]] = TermRep[UTag[b][1]] /\ UTag[a][2] = UTag[b][2]
+Injective(v) == \A k, l \in DOMAIN v : TEq(v[k], v[l]) => k = l        \* a vocabulary of distinct tags
+Pos(v, u)     == {k \in DOMAIN v : TEq(v[k], u)}
 InVocab(v, u) == Pos(v, u) # {}
 Encode(v, u)  == IF InVocab(v, u) THEN <<SetMin(Pos(v, u)) - 1>> ELSE <<>>      \* optional python index
 Decode(v, i)  == v[i + 1]
 Hits(v, ts)   == {j \in DOMAIN ts : InVocab(v, ts[j])}
 Classify(v, ts)   == IF Hits(v, ts) = {} THEN <<>> ELSE Encode(v, ts[SetMin(Hits(v, ts))])
-Multilabel(v, ts) == [k \in DOMAIN v |-> IF \E j \in DOMAIN ts : ts[j] = v[k] THEN 1 ELSE 0]
+Multilabel(v, ts) == [k \in DOMAIN v |-> IF \E j \in DOMAIN ts : TEq(ts[j], v[k]) THEN 1 ELSE 0]
 \* prediction vector: with repeats any of that tag's scores is allowed
-PredAllowed(v, ts, sc, k) == IF \E j \in DOMAIN ts : ts[j] = v[k]
-                             THEN {sc[j] : j \in {j \in DOMAIN ts : ts[j] = v[k]}} ELSE {0}
+PredAllowed(v, ts, sc, k) == IF \E j \in DOMAIN ts : TEq(ts[j], v[k])
+                             THEN {sc[j] : j \in {j \in DOMAIN ts : TEq(ts[j], v[k])}} ELSE {0}
 PredOK(v, ts, sc, p) == Len(p) = Len(v) /\ \A k \in DOMAIN v : p[k] \in PredAllowed(v, ts, sc, k)
 \* the list without its out-of-vocabulary members (and the scores that go with it)
 Keep(v, ts)       == SelectSeq([j \in DOMAIN ts |-> j], LAMBDA j : InVocab(v, ts[j]))
@@ -75,7 +85,7 @@ FilteredSc(v, ts, sc) == [m \in DOMAIN Keep(v, ts) |-> sc[Keep(v, ts)[m]]]
 
 (* laws of Req *)
 LawRoundTrip(v)  == Injective(v) => \A k \in DOMAIN v : Encode(v, Decode(v, k - 1)) = <<k - 1>>
-LawEncodeIff(v)  == Injective(v) => \A u \in 1..NU : \A k \in DOMAIN v : (Encode(v, u) = <<k - 1>>) <=> (u = v[k])
+LawEncodeIff(v)  == Injective(v) => \A u \in 1..NU : \A k \in DOMAIN v : (Encode(v, u) = <<k - 1>>) <=> TEq(u, v[k])
 LawOOV(v, ts)    == /\ Classify(v, Filtered(v, ts)) = Classify(v, ts)
                     /\ Multilabel(v, Filtered(v, ts)) = Multilabel(v, ts)
 LawOOVPred(v, ts, sc) == \A k \in DOMAIN v : PredAllowed(v, Filtered(v, ts), FilteredSc(v, ts, sc), k) = PredAllowed(v, ts, sc, k)
@@ -100,7 +110,7 @@ EncClauses == {"EncodeIffEqual", "EncodeIffObservedEqual", "DecodeEncodeIdentity
 EncClauseHolds(cl, c, r) ==
     LET v == c.vocab  ts == c.tags IN
     \* (equal universe tags are equal objects only when vocabulary and queries are written with the same content)
-    CASE cl = "EncodeIffEqual"       -> SameContent(c.vprov, c.qprov) /\ Len(r.enc) = NU /\ \A u \in 1..NU : r.enc[u] = Encode(v, u)
+    CASE cl = "EncodeIffEqual"       -> SameContent(c.vprov, c.qprov) /\ Injective(v) /\ Len(r.enc) = NU /\ \A u \in 1..NU : r.enc[u] = Encode(v, u)
       \* the same clause on OBSERVED equality: qeq[u][k] = (query tag u == vocabulary tag k), veq[k][l] likewise inside the
       \* vocabulary.  For a vocabulary of (observably) distinct tags a tag goes to index i iff it == the i-th tag.
       [] cl = "EncodeIffObservedEqual" ->
@@ -112,7 +122,7 @@ EncClauseHolds(cl, c, r) ==
                       LET hits == {k \in DOMAIN v : r.qeq[u][k]}
                       IN  Cardinality(hits) <= 1 => r.enc[u] = (IF hits = {} THEN <<>> ELSE <<SetMin(hits) - 1>>)
       [] cl = "DecodeEncodeIdentity" -> /\ Len(r.dec) = Len(v) /\ Len(r.encdec) = Len(v)
-                                        /\ \A k \in DOMAIN v : r.dec[k] = v[k] /\ r.encdec[k] = <<k - 1>>
+                                        /\ \A k \in DOMAIN v : r.dec[k] \in 1..NU /\ TEq(r.dec[k], v[k]) /\ r.encdec[k] = <<k - 1>>
       \* decoding is the inverse on indices: decode(i) EQUALS (observed ==) the i-th vocabulary tag
       [] cl = "DecodeIsVocabularyTag" -> Len(r.deq) = Len(v) /\ \A k \in DOMAIN v : r.deq[k]
       [] cl = "ClassifyFirstHit"     -> r.cls = Classify(v, ts)
